@@ -54,7 +54,9 @@ func compliantSC() *corev1.SecurityContext {
 
 // Base: compliant with restricted:latest; one container of each kind.
 func Base() *corev1.Pod {
-	p := &corev1.Pod{ObjectMeta: metav1.ObjectMeta{Name: "base", Namespace: "ns"}}
+	// every generated pod carries the same uid and resourceVersion (like the successive revisions an UPDATE
+	// proposes for one stored object): nothing may be remembered under that identity
+	p := &corev1.Pod{ObjectMeta: metav1.ObjectMeta{Name: "base", Namespace: "ns", UID: "pod-uid-1", ResourceVersion: "7"}}
 	p.Spec.SecurityContext = &corev1.PodSecurityContext{RunAsNonRoot: bp(true), SeccompProfile: &corev1.SeccompProfile{Type: "RuntimeDefault"}}
 	p.Spec.InitContainers = []corev1.Container{{Name: "i", Image: "img-i", SecurityContext: compliantSC()}}
 	p.Spec.Containers = []corev1.Container{{Name: "c", Image: "img-c", SecurityContext: compliantSC()}}
@@ -64,7 +66,7 @@ func Base() *corev1.Pod {
 
 // BaseWindows: os=windows pod with no Linux-only fields at all.
 func BaseWindows() *corev1.Pod {
-	p := &corev1.Pod{ObjectMeta: metav1.ObjectMeta{Name: "win", Namespace: "ns"}}
+	p := &corev1.Pod{ObjectMeta: metav1.ObjectMeta{Name: "win", Namespace: "ns", UID: "pod-uid-1", ResourceVersion: "7"}}
 	p.Spec.OS = &corev1.PodOS{Name: corev1.Windows}
 	p.Spec.SecurityContext = &corev1.PodSecurityContext{RunAsNonRoot: bp(true)}
 	p.Spec.InitContainers = []corev1.Container{{Name: "i", Image: "img-i"}}
@@ -740,7 +742,7 @@ func randContainer(r *rand.Rand, windows bool) corev1.Container {
 
 // Random draws one structured pod. mostlyValid biases toward restricted-compliant settings.
 func Random(r *rand.Rand) Named {
-	p := &corev1.Pod{ObjectMeta: metav1.ObjectMeta{Name: fmt.Sprintf("p%d", r.Intn(50)), Namespace: "ns"}}
+	p := &corev1.Pod{ObjectMeta: metav1.ObjectMeta{Name: fmt.Sprintf("p%d", r.Intn(50)), Namespace: "ns", UID: "pod-uid-1", ResourceVersion: "7"}}
 	windows := false
 	switch x := r.Intn(100); {
 	case x < 12:
